@@ -111,6 +111,29 @@ def _run(F, R, ctx):
         ok = any(F.reaches(f.name, r"\{impl Roots\}::free$", maxdepth=3) for f in dropfns)
         R.inst("C19.d", "RootToken::drop reaches Roots::free", ok,
                "RootToken's destructor no longer calls Roots::free: host roots accumulate", dropfns[0].loc() if dropfns else "")
+    # the entry removed is the one the token names: every component of the key handed to the table's remove derives from the
+    # token, none from the table's own current state (its generation moves on at every full collection)
+    fr = F.one(r"\{impl Roots\}::free$")
+    from .c07 import _backward, _origins
+    maps_ = _backward(fr)
+    raw_ = {}
+    for b_ in fr.blocks:
+        for e_ in b_["e"]:
+            if e_[0] == "mv":
+                raw_.setdefault(e_[1].split(".")[0], []).append(e_[2])
+    rm = [b_ for _, b_ in fr.calls() if re.search(r"::(remove|remove_entry|swap_remove)$", b_["callee"]) and len(b_["args"]) >= 2]
+    from_self = set()
+    for b_ in rm:
+        for o_ in _origins(fr, re.match(r"_\d+", b_["args"][1]).group(0), maps_, depth=12):
+            for s_ in raw_.get(o_.split(".")[0], ()):
+                m_ = re.match(r"^\(\*_1\)\.(\w+)$", s_)
+                if m_ and o_.split(".")[0] != re.match(r"_\d+", b_["args"][0]).group(0):
+                    from_self.add(m_.group(1))
+    from_self -= {"roots"}
+    R.inst("C19.d", "Roots::free removes the entry the token names", bool(rm) and not from_self,
+           "Roots::free builds the key it removes from the table's own state (%s) instead of from the token alone: a token "
+           "released after a full collection advanced the generation names an entry that is not there, the root is never "
+           "removed, and what it holds is immortal" % ", ".join(sorted(from_self)), fr.loc(), sample=True)
     for ty in ("RootToken", "RootedSteelVal"):
         cl = [im for im in F.impls if im["self"].split("<")[0] == ty and im["trait"] and
               re.search(r"::(Clone|Copy)$", im["trait"])]
